@@ -87,9 +87,10 @@ Definition std_skip (s : st) (skip : list (name * bound)) (rp : name * name) : b
 (* written with the branch at the level of the VALUES (r >= 0: both components are assigned their own value,
    i.e. nothing changes), so that the state stays a record and the correspondence goals stay small *)
 (* _std_polar_angle (since /repo 7a94ee8 its result is stored): the phase is brought into [-pi, pi).  One step of the wrap
-   moves by 2 pi; three steps cover |phi| < 7 pi (the harness checks that the phases it ties are inside that range) *)
+   moves by 2 pi and covers |phi| < 3 pi (start phases lie in [-pi, pi] and a fit moves them by less than 2 pi in every cell the
+   harness ties: it checks that range on the optimiser's answer and does not emit the model goal otherwise) *)
 Definition wrap1 (x : R) : R := if Rlt_dec x (- PI) then x + 2 * PI else if Rle_dec PI x then x - 2 * PI else x.
-Definition wrap_phase (x : R) : R := wrap1 (wrap1 (wrap1 x)).
+Definition wrap_phase (x : R) : R := wrap1 x.
 Definition std_one (skip : list (name * bound)) (s : st) (rp : name * name) : st :=
   if std_skip s skip rp then s
   else write (write s (fst rp) (if Rlt_dec (read s (fst rp)) 0 then Rabs (read s (fst rp)) else read s (fst rp)))
